@@ -3,7 +3,8 @@
    by the correspondence sweep only (see DESIGN.md: partial). *)
 From Coq Require Import List NArith ZArith Bool.
 From IdV Require Import Lib.Outcome Core.Timestamp Cred.StatusList Doc.Doc Cred.SdJwt Iota.StateMeta Panic.Sites
-  Proofs.TimestampProofs Proofs.StatusListProofs Proofs.SdJwtProofs Proofs.SitesProofs.
+  Proofs.TimestampProofs Proofs.StatusListProofs Proofs.SdJwtProofs Proofs.SitesProofs
+  Did.DidParse Did.IotaDid Proofs.DidUrlProofs Proofs.DidCompleteProofs Proofs.DidTotalProofs.
 Import ListNotations.
 
 Theorem C05_timestamp_parse_never_panics : forall s, ts_parse s <> Panic.
@@ -28,3 +29,16 @@ Print Assumptions C05_integrity_accessors_never_panic.
 Theorem C05_integrity_lenient_parse_panics : exists s v, integrity_parse_lenient s = Some v /\ im_digest_bytes v = Panic.
 Proof. exact lenient_parse_panics. Qed.
 Print Assumptions C05_integrity_lenient_parse_panics.
+
+(* DID strings.  CoreDID::parse and IotaDID::parse are total on EVERY byte string (the guard of fix 5943363 excludes the only
+   overshoot of the third-party offsets); DIDUrl::parse is total on every byte string without a percent sign, i.e. outside the
+   known class K_pct, inside which the third-party parser's offsets leave the text (C10_url_pct_panics_refuted). *)
+Theorem C05_core_did_parse_never_panics : forall s, core_did_parse s <> Panic.
+Proof. exact core_did_parse_total. Qed.
+Print Assumptions C05_core_did_parse_never_panics.
+Theorem C05_iota_did_parse_never_panics : forall s, iota_parse s <> Panic.
+Proof. exact iota_parse_total. Qed.
+Print Assumptions C05_iota_did_parse_never_panics.
+Theorem C05_did_url_parse_never_panics_outside_K_pct : forall s, K_pct s = false -> did_url_parse s <> Panic.
+Proof. intros s K. apply did_url_total_pct_free. unfold no_pct. unfold K_pct in K. rewrite K. reflexivity. Qed.
+Print Assumptions C05_did_url_parse_never_panics_outside_K_pct.
